@@ -137,7 +137,7 @@ func cmdCheck(args []string) int {
 		}
 		for i := 0; i < n; i++ {
 			wjobs = append(wjobs, wjob{Job{Pkg: h.Pkg, Fn: h.Fn, ShardI: i, ShardN: n, MaxPaths: h.MaxPaths, MaxSteps: h.MaxSteps, QTimeout: h.QTimeout, ShardDepth: h.ShardDepth, DeadlineS: dl,
-				Thorough: *tier == "thorough", Verbose: *verbose, KnownFor: known.labelMap(h.Fn)}, float64(h.Weight)/float64(n) + 0.01})
+				Thorough: *tier == "thorough" && thoroughBoundsFor(h, prop), Verbose: *verbose, KnownFor: known.labelMap(h.Fn)}, float64(h.Weight)/float64(n) + 0.01})
 		}
 	}
 	// longest first
@@ -533,4 +533,18 @@ func labelsInBody(h Harness) (asserts, covers []string) {
 		}
 	}
 	return
+}
+
+// thoroughBoundsFor: a harness registered for several properties runs its (expensive) thorough bounds only
+// for the properties named in its tonly= annotation, and its quick bounds for the others.
+func thoroughBoundsFor(h Harness, prop string) bool {
+	if len(h.TOnly) == 0 {
+		return true
+	}
+	for _, p := range h.TOnly {
+		if p == prop {
+			return true
+		}
+	}
+	return false
 }
